@@ -13,7 +13,8 @@ CLAIMED = {
         "HandleCall over the thread-safe vfs backend with seeded yields/spins/sleeps before and after every backend operation, on distinct names "
         "sharing directories and handles, under 8 cache configurations, plus contended histories (same names and handles), attribute storms (simultaneous GETATTRs of files of different sizes, size and fileid "
         "compared), re-export rounds (Unexport, then MNT + READDIRPLUS by all clients at once behind a barrier, handle table projected after every "
-        "round) and directed schedules with blocking gates; every request is logged with invocation/response stamps of one atomic counter, arguments and decoded "
+        "round) directed schedules with blocking gates and nested schedules (every backend-operation boundary of a request on a file x another client's "
+        "rename / remove of the same file, then both use the old handle again: no-deadlock clause); every request is logged with invocation/response stamps of one atomic counter, arguments and decoded "
         "results, and after the join the backend tree, both handle maps and the unexpired cache entries are read in-package. LinearizeTrace.tla "
         "makes every history an initial state and lets TLC search (depth-first queue, one worker) for an order consuming all requests whose "
         "every step is an allowed CoreOps outcome with the recorded reply (LOOKUP type, GETATTR type/size/mode, READ count/data/eof, READDIR "
@@ -24,5 +25,5 @@ CLAIMED = {
         "at backend-operation boundaries only; histories use plain names, root credentials, files below 200 bytes; ownership and times are not "
         "compared; a race report counts only when the innermost non-library frame of both accesses is absnfs code (harness/vfs frames = exit 2); "
         "SETATTR on shared directories and LOOKUP of another client's names are outside the 'distinct names' premise and not generated in "
-        "linearizability histories; findings F29a-F29d have exact guards (F29b, F29c repaired in /repo; F29a repair proposed; F29d, READDIRPLUS entry attributes fetched entry by entry, listed known)"),
+        "linearizability histories; findings F29a-F29e have exact guards (F29b, F29c repaired in /repo; F29a, F29e repairs proposed; F29d, READDIRPLUS entry attributes fetched entry by entry, listed known)"),
 }
